@@ -233,6 +233,33 @@ def times_body_probes(ctx, ws):
                                      f"string macro {name} = {body!r} with the body times: {t}: macro rule -> {str(rm[:2])[:200]}; written out -> {str(ri[:2])[:200]}")
 
 
+def duplicate_definition_probes(ctx, ws):
+    """One macro name defined more than once (in a library and again in the rule, or in two libraries) with a macro in between whose body
+    uses that name: definitions are applied one after the other in list order, so the later copy expands what the macro in between
+    brought in, and the rule compiles to what the rule written out by hand compiles to. Identical at every seed."""
+    cases = [
+        ([[{"name": "@acc", "pattern": "%eax"}]], [{"name": "@clear", "pattern": [{"xor": ["@acc", "@acc"]}]}, {"name": "@acc", "pattern": "%eax"}], ["@clear", "ret"],
+         [{"xor": ["%eax", "%eax"]}, "ret"]),
+        ([[{"name": "@hex", "pattern": "10"}, {"name": "@load_const", "pattern": [{"mov": ["0x@hex", "%eax"]}]}], [{"name": "@hex", "pattern": "10"}]], [], ["@load_const"],
+         [{"mov": ["0x10", "%eax"]}]),
+        ([[{"name": "@r", "pattern": "rbx"}]], [{"name": "@save", "pattern": [{"push": ["%@r"]}]}, {"name": "@r", "pattern": "rbx"}, {"name": "@both", "pattern": [{"$and": ["@save", {"pop": ["%@r"]}]}]},
+                                                  {"name": "@save", "pattern": [{"push": ["%@r"]}]}, {"name": "@r", "pattern": "rbx"}], ["@both", "ret"],
+         [{"$and": [{"push": ["%rbx"]}, {"pop": ["%rbx"]}]}, "ret"]),
+        ([], [{"name": "@x", "pattern": "nop"}, {"name": "@two", "pattern": [{"$and": ["@x", "@x"]}]}, {"name": "@x", "pattern": "nop"}], ["@two"], [{"$and": ["nop", "nop"]}]),
+    ]
+    for libs, own, pat, inlined in cases:
+        files = [ws.write(f"dup{i}.yaml", real.dump_rule({"macros": m})) for i, m in enumerate(libs)]
+        text_m = real.dump_rule({**({"macros": own} if own else {}), "pattern": pat})
+        text_i = real.dump_rule({"pattern": inlined})
+        rm, ri = real.compile_rule(ws.write("dup_m.yaml", text_m), files or None), real.compile_rule(ws.write("dup_i.yaml", text_i))
+        ctx.ran(2)
+        ctx.event("duplicate_definition_probes")
+        ctx.case(("dup-def", text_m, len(files)), True, stratum="a macro name defined more than once", outcome=rm[0])
+        if rm[:2] != ri[:2]:
+            ctx.disagreement({"macro_rule": text_m, "extra_macro_files": [open(f).read() for f in files], "inlined_rule": text_i, "forms": ["times-body-probe"], "listing": "", "sinsts": []},
+                             f"a macro name defined more than once with a user in between: macro rule -> {str(rm[:2])[:200]}; written out -> {str(ri[:2])[:200]}")
+
+
 def run_shard(ctx):
     d = drive.Driver(ctx, feat, flags="none", styles=("mixed", "dups", "runs"))
     library_sequence_stratum(ctx, d.ws, ctx.share(48, 2000))
@@ -240,6 +267,8 @@ def run_shard(ctx):
         nested_call_probes(ctx, d.ws)
     if ctx.shard == 4 % ctx.nshards:
         times_body_probes(ctx, d.ws)
+    if ctx.shard == 5 % ctx.nshards:
+        duplicate_definition_probes(ctx, d.ws)
     n = ctx.share(2000, 250000)
     done = 0
     while done < n:
